@@ -51,6 +51,43 @@ Definition ps_commit (hn : Z) (horig : option Z) (f : Z) : ps_prog Z :=
     | _ => ps_fail_exit (Some hn) horig (PsTmp f)
     end).
 
+(* The shape shared by all six updaters:
+     fp_orig = fopen(file, "r");          [absent: some updaters give up here, some go on]
+     fp_new = fopen(file.tmp, "w+");
+     copy loop over fp_orig (skipped when it is NULL);
+     optional tail (the new entry);
+     fflush, fclose, fclose, rename   -  or the failure exit.
+   loop: Some true = normal end, Some false = "goto fail", None = out of fuel. *)
+Definition ps_txn_body (f : Z) (loop : Z -> Z -> ps_prog (option bool))
+           (tail : Z -> ps_prog bool) (horig : option Z) : ps_prog Z :=
+  ps_open (PsTmp f) PsWp (fun hnew =>
+  match hnew with
+  | None => ps_fail_exit None horig (PsTmp f)
+  | Some hn =>
+      ps_bind (match horig with
+               | Some ho => loop ho hn
+               | None => PsRet (Some true)
+               end) (fun c =>
+        match c with
+        | None => PsRet PS_FUEL
+        | Some false => ps_fail_exit (Some hn) horig (PsTmp f)
+        | Some true =>
+            ps_bind (tail hn) (fun ok =>
+              if ok then ps_commit hn horig f
+              else ps_fail_exit (Some hn) horig (PsTmp f))
+        end)
+  end).
+
+Definition ps_txn (f : Z) (must_exist : bool) (ret_missing : Z)
+           (loop : Z -> Z -> ps_prog (option bool)) (tail : Z -> ps_prog bool) : ps_prog Z :=
+  ps_open (PsBase f) PsR (fun horig =>
+  match horig, must_exist with
+  | None, true => PsRet ret_missing
+  | _, _ => ps_txn_body f loop tail horig
+  end).
+
+Definition ps_no_tail (hn : Z) : ps_prog bool := PsRet true.
+
 (* ------------------------------------------------------------------ observe records *)
 
 Definition ps_obs_read (la lt h : Z) : ps_prog (option ps_obs) :=
@@ -101,43 +138,12 @@ Fixpoint ps_obs_copy (la lt : Z) (fuel : nat) (ho hn : Z) (skip : bytes)
 
 (* coap_op_observe_added *)
 Definition ps_obs_added (la lt : Z) (fuel : nat) (a : ps_obs) : ps_prog Z :=
-  ps_open (PsBase PS_OBS) PsR (fun horig =>
-  ps_open (PsTmp PS_OBS) PsWp (fun hnew =>
-  match hnew with
-  | None => ps_fail_exit None horig (PsTmp PS_OBS)
-  | Some hn =>
-      ps_bind (match horig with
-               | Some ho => ps_obs_copy la lt fuel ho hn (ob_key a)
-               | None => PsRet (Some true)
-               end) (fun c =>
-        match c with
-        | None => PsRet PS_FUEL
-        | Some false => ps_fail_exit (Some hn) horig (PsTmp PS_OBS)
-        | Some true =>
-            ps_bind (ps_obs_write hn a) (fun ok =>
-              if ok then ps_commit hn horig PS_OBS
-              else ps_fail_exit (Some hn) horig (PsTmp PS_OBS))
-        end)
-  end)).
+  ps_txn PS_OBS false 0 (fun ho hn => ps_obs_copy la lt fuel ho hn (ob_key a))
+         (fun hn => ps_obs_write hn a).
 
 (* coap_op_observe_deleted *)
 Definition ps_obs_deleted (la lt : Z) (fuel : nat) (key : bytes) : ps_prog Z :=
-  ps_open (PsBase PS_OBS) PsR (fun horig =>
-  match horig with
-  | None => PsRet 0
-  | Some ho =>
-      ps_open (PsTmp PS_OBS) PsWp (fun hnew =>
-      match hnew with
-      | None => ps_fail_exit None horig (PsTmp PS_OBS)
-      | Some hn =>
-          ps_bind (ps_obs_copy la lt fuel ho hn key) (fun c =>
-            match c with
-            | None => PsRet PS_FUEL
-            | Some false => ps_fail_exit (Some hn) horig (PsTmp PS_OBS)
-            | Some true => ps_commit hn horig PS_OBS
-            end)
-      end)
-  end).
+  ps_txn PS_OBS true 0 (fun ho hn => ps_obs_copy la lt fuel ho hn key) ps_no_tail.
 
 (* ------------------------------------------------------------------ counter file *)
 
@@ -164,48 +170,21 @@ Fixpoint ps_cnt_copy (fuel : nat) (ho hn : Z) (name : bytes) : ps_prog (option b
         end)
   end.
 
+(* fprintf(fp_new, "%s %u\n", name, value) < 0 -> goto fail *)
+Definition ps_cnt_put (name : bytes) (v : Z) (hn : Z) : ps_prog bool :=
+  PsDo (PoPrintf hn (ps_cnt_line name v)) (fun r =>
+    match r with
+    | PrInt n => PsRet (negb (n <? 0))
+    | _ => PsRet false
+    end).
+
 (* coap_op_obs_cnt_track_observe *)
 Definition ps_cnt_track (fuel : nat) (name : bytes) (v : Z) : ps_prog Z :=
-  ps_open (PsBase PS_CNT) PsR (fun horig =>
-  ps_open (PsTmp PS_CNT) PsWp (fun hnew =>
-  match hnew with
-  | None => ps_fail_exit None horig (PsTmp PS_CNT)
-  | Some hn =>
-      ps_bind (match horig with
-               | Some ho => ps_cnt_copy fuel ho hn name
-               | None => PsRet (Some true)
-               end) (fun c =>
-        match c with
-        | None => PsRet PS_FUEL
-        | Some false => ps_fail_exit (Some hn) horig (PsTmp PS_CNT)
-        | Some true =>
-            PsDo (PoPrintf hn (ps_cnt_line name v)) (fun r =>
-              match r with
-              | PrInt n => if n <? 0 then ps_fail_exit (Some hn) horig (PsTmp PS_CNT)
-                           else ps_commit hn horig PS_CNT
-              | _ => ps_fail_exit (Some hn) horig (PsTmp PS_CNT)
-              end)
-        end)
-  end)).
+  ps_txn PS_CNT false 0 (fun ho hn => ps_cnt_copy fuel ho hn name) (ps_cnt_put name v).
 
 (* coap_op_obs_cnt_deleted *)
 Definition ps_cnt_deleted (fuel : nat) (name : bytes) : ps_prog Z :=
-  ps_open (PsBase PS_CNT) PsR (fun horig =>
-  match horig with
-  | None => PsRet 0
-  | Some ho =>
-      ps_open (PsTmp PS_CNT) PsWp (fun hnew =>
-      match hnew with
-      | None => ps_fail_exit None horig (PsTmp PS_CNT)
-      | Some hn =>
-          ps_bind (ps_cnt_copy fuel ho hn name) (fun c =>
-            match c with
-            | None => PsRet PS_FUEL
-            | Some false => ps_fail_exit (Some hn) horig (PsTmp PS_CNT)
-            | Some true => ps_commit hn horig PS_CNT
-            end)
-      end)
-  end).
+  ps_txn PS_CNT true 0 (fun ho hn => ps_cnt_copy fuel ho hn name) ps_no_tail.
 
 (* ------------------------------------------------------------------ dynamic resources *)
 
@@ -245,23 +224,8 @@ Fixpoint ps_dyn_copy (fuel : nat) (ho hn : Z) (name : bytes) : ps_prog (option b
 
 (* coap_op_dyn_resource_added (after fix: the original is opened "r" and may be absent) *)
 Definition ps_dyn_added (fuel : nat) (a : ps_dyn) : ps_prog Z :=
-  ps_open (PsBase PS_DYN) PsR (fun horig =>
-  ps_open (PsTmp PS_DYN) PsWp (fun hnew =>
-  match hnew with
-  | None => ps_fail_exit None horig (PsTmp PS_DYN)
-  | Some hn =>
-      ps_bind (match horig with
-               | Some ho => ps_dyn_copy fuel ho hn (dy_name a)
-               | None => PsRet (Some true)
-               end) (fun c =>
-        match c with
-        | None => PsRet PS_FUEL
-        | Some _ =>
-            ps_bind (ps_dyn_write hn a) (fun ok =>
-              if ok then ps_commit hn horig PS_DYN
-              else ps_fail_exit (Some hn) horig (PsTmp PS_DYN))
-        end)
-  end)).
+  ps_txn PS_DYN false 0 (fun ho hn => ps_dyn_copy fuel ho hn (dy_name a))
+         (fun hn => ps_dyn_write hn a).
 
 (* coap_op_dyn_resource_added as it was: fopen(file, "a"), then the same loop *)
 Definition ps_dyn_added_old (fuel : nat) (a : ps_dyn) : ps_prog Z :=
@@ -286,21 +250,7 @@ Definition ps_dyn_added_old (fuel : nat) (a : ps_dyn) : ps_prog Z :=
 
 (* the dynamic-resource half of coap_op_resource_deleted *)
 Definition ps_dyn_deleted (fuel : nat) (name : bytes) : ps_prog Z :=
-  ps_open (PsBase PS_DYN) PsR (fun horig =>
-  match horig with
-  | None => PsRet 1
-  | Some ho =>
-      ps_open (PsTmp PS_DYN) PsWp (fun hnew =>
-      match hnew with
-      | None => ps_fail_exit None horig (PsTmp PS_DYN)
-      | Some hn =>
-          ps_bind (ps_dyn_copy fuel ho hn name) (fun c =>
-            match c with
-            | None => PsRet PS_FUEL
-            | Some _ => ps_commit hn horig PS_DYN
-            end)
-      end)
-  end).
+  ps_txn PS_DYN true 1 (fun ho hn => ps_dyn_copy fuel ho hn name) ps_no_tail.
 
 (* coap_op_resource_deleted: counter entry first, then the dynamic-resource entry;
    [has_cnt] / [has_dyn]: whether that file was given to coap_persist_startup *)
